@@ -74,6 +74,8 @@ mod temp_built_in_files;
 mod test_runner;
 mod type_defs;
 mod values;
+#[cfg(wilfred_garden_verif)]
+mod verif_hooks;
 mod version;
 mod wrap_in_dbg;
 
@@ -299,6 +301,11 @@ enum CliCommands {
 }
 
 fn main() {
+    #[cfg(wilfred_garden_verif)]
+    if verif_hooks::maybe_run() {
+        return;
+    }
+
     let interrupted = Arc::new(AtomicBool::new(false));
 
     let i = Arc::clone(&interrupted);
